@@ -50,6 +50,8 @@ Fixpoint minus_lists (a b : list Q) : list Q :=
   match a, b with x :: a', y :: b' => (x - y) :: minus_lists a' b' | _, _ => [] end.
 
 Definition finish (T drops : list Q) (maxdd : Q) : redrilled := redrill (minus_lists T drops) T maxdd.
+(* the same on an object whose redrill count was left at [prev] by an earlier call *)
+Definition finish_call (prev : nat) (T drops : list Q) (maxdd : Q) : redrilled := redrill_call prev (minus_lists T drops) T maxdd.
 
 (* sampled hypotheses on the library's erf: values in [0,1], ordered like their (non-negative) arguments *)
 Fixpoint erf_samples_ok (args es : list Q) : bool :=
@@ -65,20 +67,20 @@ Fixpoint erf_samples_ok (args es : list Q) : bool :=
   | _, _ => false
   end.
 
-(* flat: [m; Trock; Tinj; dd; maxdd; L; n; cpw; k; rho; cpr; nd] ++ drops (nd = 1: scalar drop, else n values)
+(* flat: [m; Trock; Tinj; dd; maxdd; L; n; cpw; k; rho; cpr; prev; nd] ++ drops (nd = 1: scalar drop, else n values)
          ++ (m = 3: erf arguments (n-1) ++ erf values (n-1))
    ->  Tresoutput ++ ProducedTemperature ++ [redrill]
        ++ (m = 3: argument^2 / model argument^2 (n-1) ++ [erf samples ok]) *)
 Definition run_drawdown (a : list Q) : res :=
   match a with
-  | m :: Trock :: Tinj :: dd :: maxdd :: L :: n :: cpw :: k :: rho :: cpr :: nd :: rest =>
+  | m :: Trock :: Tinj :: dd :: maxdd :: L :: n :: cpw :: k :: rho :: cpr :: prev :: nd :: rest =>
       let n := qnat n in
       let nd := qnat nd in
       let ts := timevector L n in
       let drops := if Nat.eqb nd 1 then repeat (hd 0 rest) n else firstn nd rest in
       let extra := skipn nd rest in
       let out (T : list Q) (tail : list Q) :=
-        let rd := finish T drops maxdd in Vals (rd_T rd ++ rd_P rd ++ [natQ (rd_count rd)] ++ tail) in
+        let rd := finish_call (qnat prev) T drops maxdd in Vals (rd_T rd ++ rd_P rd ++ [natQ (rd_count rd)] ++ tail) in
       if Nat.eqb n 0 || negb (Nat.eqb (length drops) n) then Err E_ARGS
       else if Qeqb m 4 then
         if Nat.eqb (length extra) 0 then out (tdp_series Trock Tinj dd ts) [] else Err E_ARGS
